@@ -64,7 +64,9 @@ theorem ignores_scriptsigs_witnesses (sha256 : Bytes → Bytes) (T : Tables) (t 
     Digest04.flatMap_sequence t'.inputs, Digest04.flatMap_sequence t.inputs, hi']
   rcases h1 : t'.inputs[i]? with _ | x' <;> rcases h2 : t.inputs[i]? with _ | x <;>
     rw [h1, h2] at hg <;> simp only [Option.map_none, Option.map_some, reduceCtorEq, Option.some.injEq] at hg
-  all_goals trace_state
-  all_goals sorry
+  -- (the none/none case is `rfl`; mixed cases are contradictory)
+  all_goals first
+    | rfl
+    | simp only [Digest04.outpointBytes_of_proj hg, Digest04.sequence_of_proj hg]
 
 end C04
